@@ -28,7 +28,9 @@ def build(tier, seed):
                   map_index=('std::map<ipr::util::hash_code, std::forward_list<ipr::impl::String>>::operator[]',),
                   fl_begin=('std::forward_list<ipr::impl::String>::begin',), fl_end=('std::forward_list<ipr::impl::String>::end',),
                   it_eq=('std::operator==', '_Fwd_list_iterator'), it_deref=('std::_Fwd_list_iterator<ipr::impl::String>::operator*',),
-                  find_if=('std::find_if', 'string_pool'))
+                  find_if=('std::find_if', 'string_pool'), fl_empty=('std::forward_list<ipr::impl::String>::empty',))
+    # models of library functions the lookup may or may not go through (a changed intern that scans its bucket differently still gets a decided run)
+    it.optional = {'find_if', 'fl_begin', 'fl_end', 'it_eq', 'it_deref', 'eq_call', 'fl_empty'}
     obs += [
         Ob('C03.word_if_known', it, 'C03/intern.c', 'h_word_if_known', 'reserved-word lookup for a symbolic word (length <= 24, arbitrary bytes): hit iff the spelling is in the table, and then that entry',
            kind='K1', flags=['--unwind', '58'], replay='C03', timeout=1800),
